@@ -134,8 +134,11 @@ class Run:
                     m.live, m.why = False, 'was cancelled from inside its callback (.timerc returned %r)' % (r,)
             elif action == 'cancel_other':
                 mo = self.models['u']
+                pend = self.pending(self.kl('uh'))
                 r = self.kl('.timerc(uh)')
-                exp = 1 if mo.live and not mo.raised else (r if mo.raised else 0)
+                # after a raising callback the statement does not say whether the timer lives on; whichever the
+                # implementation chose, .timerc must report it: 1 exactly when a tick was still scheduled
+                exp = (1 if pend else 0) if mo.raised else (1 if mo.live else 0)
                 if r != exp:
                     self.violation('timerc-result', '.timerc(other) returned %r, expected %d' % (r, exp))
                 mo.live, mo.why = False, 'was cancelled by the other timer'
@@ -235,12 +238,18 @@ class Run:
 
     def external_cancel(self):
         m = self.models['t']
+        pend = self.pending(self.kl('th'))
         r = self.kl('.timerc(th)')
         if not m.raised:
             exp = 1 if m.live else 0
             if r != exp:
                 self.violation('timerc-result', 'external .timerc returned %r, expected %d (%s)' % (
                     r, exp, 'timer live' if m.live else 'timer already ' + getattr(m, 'why', 'stopped')))
+        elif r != (1 if pend else 0):
+            # the statement leaves open whether a timer survives a raising callback, not what .timerc reports:
+            # "1 exactly when it stopped a live timer" - live = a tick was still scheduled
+            self.violation('timerc-result', 'external .timerc after a raising callback returned %r although %s' % (
+                r, 'a tick was still scheduled' if pend else 'no tick was scheduled any more (the timer was dead)'))
         if m.live:
             m.live, m.why = False, 'was cancelled externally (.timerc returned %r)' % (r,)
         elif m.raised:
@@ -391,7 +400,7 @@ def run(cfg):
         'asyncio loop semantics as implemented by BaseEventLoop (call_at / call_later / call_soon handles, a timer may be '
         'dispatched up to clock_resolution = 1e-9 s before its deadline)',
         'a boundary reached at the very instant the callback returns may or may not count as missed (both accepted)',
-        'after a callback raises, nothing is prescribed for that timer except that a cancelled timer is not resurrected',
+        'after a callback raises, it is not prescribed whether the timer lives on; a cancelled timer is not resurrected and .timerc must return 1 exactly when a tick was still scheduled',
         'interval 0 = every loop iteration; only the stop / cancel clauses apply',
     ]
     return rep
